@@ -29,7 +29,9 @@ Record attrs := {
   a_oid : option N;               (* ORIGINATOR_ID *)
   a_llgr : bool;                  (* carries the LLGR_STALE community *)
   a_nollgr : bool;                (* carries the NO_LLGR community *)
-  a_mm : option N                 (* EVPN MAC-mobility sequence number *)
+  a_mm : option N;                (* EVPN MAC-mobility sequence number *)
+  a_orig : N                      (* Arc::as_ptr of the attributes as received, before import policy
+                                     (original_attr; the same block when policy changed nothing) *)
 }.
 
 Record src := {
@@ -713,9 +715,9 @@ Definition soft_in (fl : flagmap) (peer : N) (include_stale : bool) (d : dest) :
   filter (fun e => from_addr peer e && (include_stale || negb (is_stale fl e))) (d_entries d).
 
 Definition v_adj (e : entry) : val :=
-  VL [VN (e_rpid e); VN (s_tok (e_src e)); VN (a_tok (e_attr e)); VB (e_filtered e)].
+  VL [VN (e_rpid e); VN (s_tok (e_src e)); VN (a_orig (e_attr e)); VB (e_filtered e)].
 Definition v_soft (e : entry) : val :=
-  VL [VN (e_rpid e); VN (s_tok (e_src e)); VOpt VN (e_nh e)].
+  VL [VN (e_rpid e); VN (s_tok (e_src e)); VOpt VN (e_nh e); VN (a_orig (e_attr e))].
 Definition v_limited (fl : flagmap) (c : change) : val :=
   VL [VN (c_net c); VList (v_entry fl) (c_paths c)].
 
@@ -744,7 +746,7 @@ Definition v_state (t : table) (addrs ctrs : list N) : val :=
       (* Table::destinations(RsLocal(peer)): per peer, the best path among the
          other route-server clients' eligible paths, prefix by prefix *)
       VList (fun a => VL [VN a; VList (fun nd => match rs_local a (snd nd) with
-                                                 | Some e => VL [VN (fst nd); VN (s_tok (e_src e)); VN (a_tok (e_attr e))]
+                                                 | Some e => VL [VN (fst nd); VN (s_tok (e_src e)); VN (a_orig (e_attr e))]
                                                  | None => VL [VN (fst nd)]
                                                  end) (t_dests t)]) addrs;
       (* read-only views: collect_loc_rib_paths_limited(1 / 2), destinations(AdjIn(peer))
